@@ -270,6 +270,23 @@ def encode_framing_rules(ck, F, b, t, wr, rd, enc):
                 and sum("from_elem" in repr(c_) and "puncture" not in repr(c_) for c_ in comps) == 1:
             okf = True
     ck.inst("L4", "encode:bytes-from-codeword", okf, b.span, "the bytes refreshed are is_one() of the (punctured) codeword's elements, in order (zip with the buffer)")
+    # the message handed to the encoder: the whole information word just read, byte b -> GF2 one when b == 1, zero otherwise
+    from ..idioms import elementwise
+    msg_ok, whym = False, "the encoder argument is not an elementwise image of the buffer that read_exact filled"
+    buf = rd[0].args[1]
+    ba = single_atom(buf) if isinstance(buf, Poly) else None
+    S_ = atom_args(ba)[0] if ba is not None and atom_fn(ba) == "index" else buf        # information_word[..] -> information_word
+    for cand in (S_, app("mutated", S_) if isinstance(S_, Poly) else None):
+        if cand is None:
+            continue
+        fv = elementwise(F, t, enc[0].args[1], cand, x="b")
+        if fv is not None:
+            fa = single_atom(fv) if isinstance(fv, Poly) else None
+            msg_ok = fa is not None and atom_fn(fa) == "ite" and atom_args(fa)[0] in (app("eq", var("b"), num(1)), app("eq", num(1), var("b"))) and \
+                "One::one" in repr(atom_args(fa)[1]) and "Zero::zero" in repr(atom_args(fa)[2])
+            whym = "message[i] = %r of information_word[i]" % (fv,)
+            break
+    ck.inst("L4", "encode:message-bits", msg_ok, enc[0].site, whym[:300])
     # input word: buffer of k = n - rows bytes, read_exact, break only on UnexpectedEof
     al = [e for e in t.events if e.callee.endswith("from_elem")]
     H = app("try", app(SM + "from_alist", app("try", app("std::fs::read_to_string", var("self.alist")))))
